@@ -436,7 +436,12 @@ class Resource(object):
 
     @staticmethod
     def normalize(fragment):
-        return fragment.split()[-1:][0] if ' ' in fragment else fragment
+        # 'prefix:Type uri#fragment': the type announced in front is dropped
+        # (a blank anywhere else belongs to the uri: 'my dir/b.xmi#//')
+        head, blank, tail = fragment.partition(' ')
+        if blank and ':' in head and '/' not in head and '#' not in head:
+            return tail.strip() or fragment
+        return fragment
 
     def _is_external(self, path):
         path = self.normalize(path)
